@@ -21,6 +21,7 @@ from typing import Dict, List, Set, Tuple
 from ..index import AnalysisError, Index, call_name, norm, walk_no_nested
 from ..report import Report
 from ..rules import cfg_of, guards_dominating
+from ..dataflow import DefUse
 
 PW = "io.pddl_writer"
 AW = "io.anml_writer"
@@ -134,8 +135,16 @@ def run(idx: Index, rep: Report, tier: str) -> None:
         for a in walk_no_nested(f.node):
             if isinstance(a, ast.Assign) and isinstance(a.targets[0], ast.Subscript) and isinstance(a.targets[0].value, ast.Attribute) and a.targets[0].value.attr in writers:
                 writers[a.targets[0].value.attr].append((f.short, norm(a)))
+    # a private helper that only _get_mangled_name calls is part of it
+    pw_cls = idx.cls(PW + ".PDDLWriter")
+    own_helpers = set()
+    for hname, h in pw_cls.methods.items():
+        if hname.startswith("_") and hname != "_get_mangled_name":
+            callers = {m.node.name for m in pw_cls.methods.values() if any(isinstance(c, ast.Call) and isinstance(c.func, ast.Attribute) and norm(c.func.value) == "self" and c.func.attr == hname for c in walk_no_nested(m.node))}
+            if callers == {"_get_mangled_name"}:
+                own_helpers.add("PDDLWriter." + hname)
     for mname, ws in writers.items():
-        ok = bool(ws) and all(w[0] == "PDDLWriter._get_mangled_name" for w in ws)
+        ok = bool(ws) and all(w[0] == "PDDLWriter._get_mangled_name" or w[0] in own_helpers for w in ws)
         rep.check(ok, rule2, f"{mname} is written only in _get_mangled_name", gm.loc(), construct="; ".join(f"{a}: {b}" for a, b in ws), detail="" if ok else "a name enters one lookup direction without the other", function=gm.qualname)
     body = [norm(s) for s in gm.node.body]
     try:
@@ -143,6 +152,22 @@ def run(idx: Index, rep: Report, tier: str) -> None:
         ok = body[i + 1] == "self.nto_renamings[new_name] = item" and body[i + 2] == "return new_name"
     except (ValueError, IndexError):
         ok = False
+    if not ok:
+        # the pair of stores inside a helper of its own: both maps are written in one helper, with mirrored key / value,
+        # and _get_mangled_name returns the name it handed to that helper
+        for hq in sorted(own_helpers):
+            h = pw_cls.methods[hq.split(".")[-1]]
+            st = [a for a in walk_no_nested(h.node) if isinstance(a, ast.Assign) and isinstance(a.targets[0], ast.Subscript) and isinstance(a.targets[0].value, ast.Attribute) and a.targets[0].value.attr in writers]
+            if len(st) == 2 and {x.targets[0].value.attr for x in st} == set(writers):
+                o = next(x for x in st if x.targets[0].value.attr == "otn_renamings")
+                n_ = next(x for x in st if x.targets[0].value.attr == "nto_renamings")
+                mirrored = norm(o.targets[0].slice) == norm(n_.value) and norm(n_.targets[0].slice) == norm(o.value)
+                hp = [p_ for p_ in h.params() if p_ != "self"]
+                calls = [c for c in walk_no_nested(gm.node) if isinstance(c, ast.Call) and isinstance(c.func, ast.Attribute) and c.func.attr == h.node.name]
+                name_pos = hp.index(norm(o.value)) if norm(o.value) in hp else None
+                returned = {norm(r.value) for r in walk_no_nested(gm.node) if isinstance(r, ast.Return) and r.value is not None}
+                if mirrored and calls and name_pos is not None and all(name_pos < len(c.args) and norm(c.args[name_pos]) in returned for c in calls):
+                    ok = True
     rep.check(ok, rule2, "both directions are stored together and the stored name is the one returned", gm.loc(), construct="otn[item] = new_name; nto[new_name] = item; return new_name", detail="" if ok else "item -> name and name -> item are not updated as a pair", function=gm.qualname)
     first = [s for s in gm.node.body if isinstance(s, ast.If)][0]
     ok = norm(first.test) == "item in self.otn_renamings" and norm(first.body[0]) == "return self.otn_renamings[item]"
@@ -192,7 +217,7 @@ def run(idx: Index, rep: Report, tier: str) -> None:
     lowers = [a for a in walk_no_nested(gp.node) if isinstance(a, ast.Assign) and norm(a) == "name = name.lower()"]
     rep.check(bool(lowers), rule3, "PDDL: names are lower-cased (PDDL is case-insensitive)", gp.loc(lowers[0]) if lowers else gp.loc(), construct="name = name.lower()", detail="" if lowers else "names that differ only in case are written as distinct identifiers of a case-insensitive language", function=gp.qualname)
     wl = [w for w in walk_no_nested(gp.node) if isinstance(w, ast.While)]
-    ok = bool(wl) and norm(wl[0].test) == "name in pddl_keywords" and any(isinstance(a, ast.Assign) and norm(a.targets[0]) == "name" for a in wl[0].body)
+    ok = bool(wl) and norm(wl[0].test) == "name in pddl_keywords" and any((isinstance(a, ast.Assign) and norm(a.targets[0]) == "name") or (isinstance(a, ast.AugAssign) and norm(a.target) == "name") for a in wl[0].body)
     rep.check(ok, rule3, "PDDL: a keyword is altered until it is no keyword", gp.loc(wl[0]) if wl else gp.loc(), construct=norm(wl[0].test) if wl else "", detail="" if ok else "a model element can be written under a PDDL keyword", function=gp.qualname)
     firsts = [c for c in walk_no_nested(gp.node) if isinstance(c, ast.Call) and norm(c.func) == "re.compile" and c.args and isinstance(c.args[0], ast.Constant)]
     ok = bool(firsts) and firsts[0].args[0].value.startswith("^[a-zA-Z]")
@@ -245,11 +270,23 @@ def run(idx: Index, rep: Report, tier: str) -> None:
     an = idx.func(AW + "._get_anml_name")
     rep.note_function(an.qualname)
     an = with_roles(an, name_roles(an, {"result": "new_name"}))
-    wl = [w for w in walk_no_nested(an.node) if isinstance(w, ast.While)]
-    ok = bool(wl) and norm(wl[0].test) == "test_name in names_mapping.values()"
-    rep.check(ok, rule3, "ANML: a fresh name is one that no other element received", an.loc(wl[0]) if wl else an.loc(), construct=norm(wl[0].test) if wl else "", detail="" if ok else "two elements can be written under the same ANML name", function=an.qualname)
+    # the probe of the freshness loop: `while <probe> in names_mapping.values()`, whatever the probe is called; what is
+    # recorded for the item is the probe's final value (directly, or through `new_name = test_name` after the loop)
+    wl = [w for w in walk_no_nested(an.node) if isinstance(w, ast.While) and isinstance(w.test, ast.Compare) and len(w.test.ops) == 1 and isinstance(w.test.ops[0], ast.In) and isinstance(w.test.left, ast.Name) and norm(w.test.comparators[0]) == "names_mapping.values()"]
+    probe = wl[0].test.left.id if wl else None
+    ok = bool(wl) and probe not in an.params() and any(isinstance(x, ast.Name) and isinstance(x.ctx, ast.Store) and x.id == probe for st_ in wl[0].body for x in ast.walk(st_))
+    rep.check(ok, rule3, "ANML: a fresh name is one that no other element received", an.loc(wl[0]) if wl else an.loc(), construct=norm(wl[0].test) if wl else "no `while <probe> in names_mapping.values()`", detail="" if ok else "two elements can be written under the same ANML name", function=an.qualname)
     st = [a for a in walk_no_nested(an.node) if isinstance(a, ast.Assign) and isinstance(a.targets[0], ast.Subscript) and norm(a.targets[0].value) == "names_mapping"]
-    ok = bool(st) and all(norm(a.targets[0].slice) == "item" and norm(a.value) == "new_name" for a in st)
+    acfg = cfg_of(an)
+    adu = DefUse(acfg)
+
+    def _is_result(a) -> bool:
+        if norm(a.value) in ("new_name", probe):
+            return True
+        nds_ = acfg.node_containing(a)
+        return bool(nds_) and probe is not None and any(ch == (probe,) for ch in adu.expanded_chains(a.value, nds_[0]))
+
+    ok = bool(st) and all(norm(a.targets[0].slice) == "item" and _is_result(a) for a in st)
     rep.check(ok, rule3, "ANML: the chosen name is recorded for the item", an.loc(st[0]) if st else an.loc(), construct=norm(st[0]) if st else "", function=an.qualname)
     try:
         akw = set(ast.literal_eval(am.assigns["ANML_KEYWORDS"]))
